@@ -13,6 +13,7 @@ import json
 import os
 import re
 import shlex
+import shutil
 import subprocess
 
 from cbimon import hooks
@@ -52,7 +53,8 @@ def required_cells(tier):
         cells += [f"modelled:{f}:joined", f"modelled:{f}:separate"]
     cells += ["prefix:-g*", "prefix:-c*", "prefix:-o*", "prefix:-O*", "prefix:-i*", "prefix:-I*", "prefix:-D*",
               "unmodelled-with-value", "value:space", "value:equals", "value:quote", "value:leading-dash", "command-string",
-              "database-file", "database-literal-metacharacters", "database-entry-in-build-directory", "environment:CPATH-set", "database-multi-entry", "class:E", "class:R", "each-catalogue-flag-next-to-modelled"]
+              "database-file", "database-literal-metacharacters", "database-entry-in-build-directory", "environment:CPATH-set", "database-entry-with-both-forms",
+              "front-end:percent-signs", "database-multi-entry", "class:E", "class:R", "each-catalogue-flag-next-to-modelled"]
     return cells
 
 
@@ -490,6 +492,10 @@ def multi_entry_databases(ctx, rng, work):
             if form == "arguments":
                 e["arguments"] = argv
                 real = argv
+                if (i + j) % 3 == 0:
+                    # an entry may carry both forms (the JSON compilation database format allows it)
+                    e["command"] = shlex.join(argv)
+                    acc.cells["database-entry-with-both-forms"] += 1
             else:
                 e["command"] = text
                 real = sh_split(text)
@@ -517,9 +523,44 @@ def multi_entry_databases(ctx, rng, work):
                          cells=["database-multi-entry"], cls="database")
 
 
+def front_end_with_percent_signs(ctx, work):
+    """Unknown options, definitions and directories containing `%` through the two front ends that log to cbi.log (their
+    warning aggregator sees every message): the run completes and the options take effect."""
+    from cbimon import cli
+    acc = ctx.acc
+    shutil.rmtree(work, ignore_errors=True)
+    os.makedirs(os.path.join(work, "inc%d"))
+    with open(os.path.join(work, "inc%d", "h.h"), "w") as f:
+        f.write("#define FROM_H 1\n")
+    with open(os.path.join(work, "a.c"), "w") as f:
+        f.write("#include <h.h>\n#if defined(PCT) && defined(FROM_H)\nint yes;\n#else\nint no;\n#endif\n")
+    argv = ["clang", "-fprofile-instr-generate=cov-%p.profraw", "-DPCT=100%", "-I", "inc%d", "--weird=%s%n", "-c", "a.c"]
+    with open(os.path.join(work, "db.json"), "w") as f:
+        json.dump([{"file": "a.c", "directory": work, "arguments": argv}], f)
+    with open(os.path.join(work, "analysis.toml"), "w") as f:
+        f.write('[platform.p]\ncommands = "db.json"\n')
+    problems = []
+    rc, out, err = cli.run("codebasin", ["-R", "summary", "analysis.toml"], work)
+    if rc != 0 or "Total SLOC: 7" not in out or "Coverage (%): 85.71" not in out:
+        problems.append({"kind": "codebasin with % in options", "rc": rc, "stdout": out[-300:], "stderr": err[-200:]})
+    rc2, out2, err2 = cli.run("cbi-cov", ["compute", "-S", work, "-o", os.path.join(work, "cov.json"), os.path.join(work, "db.json")], work)
+    used = None
+    if rc2 == 0:
+        used = {e["file"]: sorted(e["used_lines"]) for e in json.load(open(os.path.join(work, "cov.json")))}
+    if rc2 != 0 or used.get("a.c") != [1, 2, 3, 4, 6]:
+        problems.append({"kind": "cbi-cov with % in options", "rc": rc2, "used": used, "stderr": err2[-300:], "stdout": out2[-200:]})
+    acc.hook("cli-runs", 2)
+    if problems:
+        acc.violated({"input": {"argv": argv, "via": "front ends"}, "witness": {"argv": argv, "problems": problems}}, cells=["front-end:percent-signs"], cls="cli")
+    else:
+        acc.held(cells=["front-end:percent-signs"], cls="cli", nontrivial=argv)
+
+
 def run_shard(ctx):
     b = bounds(ctx.tier)
     obs = Observer()
+    if ctx.shard == 0:
+        front_end_with_percent_signs(ctx, os.path.join(ctx.scratch, "pct"))
     mods = modelled_items()
     unm = unmodelled_items()
     rng = ctx.rng("random")
